@@ -225,13 +225,16 @@ class QRun:
         finally:
             sim.cb_enabled = was
 
-    def the_eval(self, qid: str, pool: Optional[Pool] = None, quiet: bool = False):
+    def the_eval(self, qid: str, pool: Optional[Pool] = None, quiet: bool = False, fault_at: Optional[int] = None):
         """Evaluate a `the` query. Returns ("value", row) | ("exc", type name, exception object)."""
         sim = self.sim
         pool = pool or self.pool
         q = pool.queries[qid]
         was = sim.cb_enabled
         sim.cb_enabled = not quiet
+        if not quiet:
+            sim.fault_at = fault_at
+            sim.faultable_in_op = 0
         try:
             r = q.evaluate()
             res = ("value", pool.row(q, r), None)
@@ -241,6 +244,8 @@ class QRun:
             res = ("exc", type(e).__name__, e)
         finally:
             sim.cb_enabled = was
+            if not quiet:
+                sim.fault_at = None
         if not quiet:
             sim.event("the", qid, res[0], freeze(res[1]))
         return res
